@@ -76,6 +76,27 @@ pub fn check(case: &Case) -> CaseResult {
         }
     }
     list.extend(pending);
+    // how the list reaches the sender: as built, cloned, or cloned INTO an existing list of another
+    // length (`clone_from`, which a type may implement by hand)
+    let sel = case.how.iter().map(|h| *h as usize).sum::<usize>() / 5 % 7;
+    let filler = |k: usize| {
+        let mut d = CommandList::new(Command::new("stale"));
+        for i in 1..k.max(1) {
+            d.add(Command::new("stale").argument(i.to_string()));
+        }
+        d
+    };
+    match sel {
+        1 => list = list.clone(),
+        2..=6 => {
+            let k = [1, n.saturating_sub(1), n, n + 1, n + 3][sel - 2];
+            let mut d = filler(k);
+            d.clone_from(&list);
+            list = d;
+            r.class("via_clone_from");
+        }
+        _ => {}
+    }
     if list.len() != n {
         r.fail(format!("len() = {} for {n} commands", list.len()));
         return r;
